@@ -15,6 +15,7 @@ import (
 	"fmt"
 	"sort"
 	"strings"
+	"unicode/utf8"
 
 	"oras.land/oras-go/v2/registry/remote/auth"
 	"verifharness/common"
@@ -348,13 +349,10 @@ func tokenSafe(s string) bool {
 	return true
 }
 
+// quotable: quoteParam can render it and strconv.Unquote gives it back: no raw
+// newline (Unquote rejects it) and valid UTF-8 (invalid bytes are replaced)
 func quotable(s string) bool {
-	for i := 0; i < len(s); i++ {
-		if s[i] == '"' || s[i] == '\\' || s[i] == '\n' || s[i] >= 0x80 {
-			return false
-		}
-	}
-	return true
+	return !strings.Contains(s, "\n") && utf8.ValidString(s)
 }
 
 // renderChallenge writes a header in one of the syntactic variants RFC 7235
@@ -373,7 +371,7 @@ func renderChallenge(r *common.Rand, scheme string, ps []chParam) string {
 		if tokenSafe(p.v) && r.Chance(1, 3) {
 			sb.WriteString(p.v)
 		} else {
-			sb.WriteString("\"" + p.v + "\"")
+			sb.WriteString(quoteParam(p.v))
 		}
 	}
 	return sb.String()
@@ -424,7 +422,8 @@ func challengeCase(hdr string, truth *struct {
 var (
 	chKeys = []string{"realm", "service", "scope", "error", "Realm", "x-y", "scope"}
 	chVals = []string{"https://auth.example.io/token", "registry.example.io", "repository:foo:pull,push", "repository:a:pull repository:b:push",
-		"a b", "", "x", "insufficient_scope", "a,b=c", "http://h:5000/t?x=1&y=2", "tok~en", " lead"}
+		"a b", "", "x", "insufficient_scope", "a,b=c", "http://h:5000/t?x=1&y=2", "tok~en", " lead",
+		"acc\u00e8s refus\u00e9", "say \"no\"", "back\\slash", "http://h/t\"x", "https://\u00fc.example/token", "a\tb", "\\\"", "caf\u00e9 \"au lait\" \\o/"}
 )
 
 func genChallenge(r *common.Rand) {
